@@ -76,6 +76,17 @@ Theorem deliver_in_iff : forall c g s i x,
   (In x (deliver g (Recv s i)) <-> exists p, cpath c s i p /\ observe p = Some x).
 Proof. exact deliver_in_iff_l. Qed.
 
+(* Run-time faults: when the components in F refuse (return an error, forward nothing), exactly the
+   configuration paths that meet no refusing component are still completed — a failing pipeline does not
+   starve its siblings — and the receiver gets an error back iff some walk meets a refusing component. *)
+Theorem failure_isolated : forall c g s i F,
+  wf_config c -> build c = Ok g -> In (Recv s i) (g_nodes g) ->
+  (forall x, In x (deliver_f g F (Recv s i)) <->
+     exists p, cpath c s i p /\ observe p = Some x /\ forall n, In n p -> memb F n = false) /\
+  (consume_error g F (Recv s i) = true <->
+     exists p n, In p (deliver_walks g (Recv s i)) /\ In n p /\ In n F).
+Proof. exact failure_isolated_l. Qed.
+
 (* The router handed to the connector instance (a, b, k) offers exactly the pipelines of signal b that
    list k as a receiver (k being used as exporter by some pipeline of signal a, pair supported). *)
 Theorem connector_router_exact : forall c g a b k p,
@@ -122,6 +133,7 @@ Print Assumptions unsupported_connector_rejected.
 Print Assumptions build_error_starts_nothing.
 Print Assumptions route_exact.
 Print Assumptions deliver_in_iff.
+Print Assumptions failure_isolated.
 Print Assumptions connector_router_exact.
 Print Assumptions supported_factory_kind.
 Print Assumptions instances_exact.
